@@ -18,7 +18,7 @@ const ALPHABET: &[u8] = b"{}[]\",:-+.eE01 9\\ntfu\n/ax";
 const ARG_POOL: &[&str] = &[
     ".", ".s", ".n", ".arr", ".obj", ".g", ".h", ".id", ".missing", "0", "1", "2", "3", "-1", "1.5", "1e30",
     "-1e30", "100", "\"\"", "\"é\"", "\"aé😀b\"", "\"abc\"", "\"a\"", "\"%Q\"", "\"%Y-%m-%d\"", "\"1.5\"",
-    "\"-0\"", "\"1e3\"", "\"[\"", "\"(\"", "null", "true", "false", "[]", "{}", "[1, \"é\", null]",
+    "\"-0\"", "\"1e3\"", "\"[\"", "\"(\"", "\"(a)|(b)\"", "\"(x)?a\"", "\"[0-9\"", "\"a*\"", "\"^$\"", "null", "true", "false", "[]", "{}", "[1, \"é\", null]",
     "{\"a\": 1}", "[1, 2, 3]", "[\"é\", \"😀\"]", "[[1], [2]]", "\"日本語テキスト\"", "18446744073709551615",
     "-9223372036854775808", "0.1", "\"2024-01-01T00:00:00Z\"", "\"Z\"", "\"+25:00\"",
     // values only arithmetic can make: infinities and NaN out of finite operands
@@ -303,6 +303,9 @@ impl Property for C05 {
                 case.pieces = vec![Piece::raw(data)];
                 if rng.chance(1, 2) {
                     case.opts.push(vec!["--select".into(), "(stringify .)=x".into()]);
+                }
+                if rng.chance(1, 2) {
+                    case.opts.push(vec![format!("--style={}", rng.pick(&["pretty", "consise", "one-line"]))]);
                 }
             }
             "ill-typed" | "documented" => {
